@@ -42,21 +42,25 @@ Tgt(kind, host, port, sel) == [kind |-> kind, host |-> host, port |-> port, sel 
 Here(kind, sel) == Tgt(kind, ServerName, ServerPort, SlashNorm(sel))
 Place(kind, host, port, sel) == IF host = ServerName /\ port = ServerPort THEN Here(kind, sel) ELSE Tgt(kind, host, port, sel)
 
+\* an absolute reference (the URL of a URL: selector, or a rendered gopher:// URL)
+CanonAbs(kind, h) ==
+    IF StartsWith(h, "gopher://")
+    THEN LET g == GopherUrlParts(h) IN Place(IF g.type = "7" THEN "search" ELSE kind, g.host, g.port, g.sel)
+    ELSE Tgt(kind, UrlHost, 0, h)
+
 Canon(p, t) ==
+    LET kind == IF t.mark = "search" THEN "search" ELSE "link" IN
     CASE t.form = "none" -> Tgt("info", "", 0, "")
       [] t.form = "tab" ->
-            LET kind == IF t.mark = "search" THEN "search" ELSE "link" IN
-            IF IsUrlSel(t.sel) THEN Tgt(kind, UrlHost, 0, UrlOf(t.sel))
+            IF IsUrlSel(t.sel) THEN CanonAbs(kind, UrlOf(t.sel))
             ELSE Place(kind, t.host, t.port, t.sel)
       [] t.form = "url" ->
             LET h == t.href IN
-            IF StartsWith(h, "gopher://")
-            THEN LET g == GopherUrlParts(h) IN Place(IF g.type = "7" THEN "search" ELSE "link", g.host, g.port, g.sel)
-            ELSE IF HasScheme(h) \/ ~StartsWith(h, "/") THEN Tgt(IF t.mark = "search" THEN "search" ELSE "link", UrlHost, 0, h)
+            IF HasScheme(h) \/ ~StartsWith(h, "/") THEN CanonAbs(kind, h)
             ELSE LET h1 == IF p = "W" /\ StartsWith(h, WapTop) THEN SubSeq(h, Len(WapTop) + 1, Len(h)) ELSE h
                      isq == p = "M" /\ StartsWith(h1, QueryPrefix)      \* Gemini marks a search item only by this prefix
                      h2 == IF isq THEN SubSeq(h1, Len(QueryPrefix) + 1, Len(h1)) ELSE h1
-                 IN Here(IF t.mark = "search" \/ isq THEN "search" ELSE "link", PctUnquote(h2))
+                 IN Here(IF isq THEN "search" ELSE kind, PctUnquote(h2))
 
 \* an observed listing (entries [type, name, mt, t]) as a protocol-independent view
 ViewOf(p, es) == [i \in 1..Len(es) |-> LET c == Canon(p, es[i].t) IN
